@@ -173,6 +173,16 @@ class Fn:
                 if ta == 'set' and tb == 'set':
                     return f'(union {a} {b})', 'set'
                 raise Refuse(f'{self.name}: | on {ta}, {tb}: {s}')
+        if isinstance(e, ast.Set) and len(e.elts) == 1:
+            a, ta = self.expr(e.elts[0])
+            if ta == 'set':
+                return f'[{a}]', 'fam'
+        if isinstance(e, ast.Call) and s == 'set()':
+            return '[]', 'fam'
+        if isinstance(e, ast.Call) and _src(e.func) == 'set' and len(e.args) == 1:
+            a, ta = self.expr(e.args[0])
+            if ta == 'fam':
+                return a, 'fam'
         if isinstance(e, ast.Call):
             return self.call(e)
         if isinstance(e, ast.DictComp) and \
@@ -216,6 +226,10 @@ class Fn:
     def test(self, e):
         """Gallina boolean of a condition."""
         s = _src(e)
+        if isinstance(e, ast.UnaryOp) and isinstance(e.op, ast.Not):
+            a, ta = self.expr(e.operand)
+            if ta == 'fam':
+                return f'is_nil {a}'
         if isinstance(e, ast.Compare) and len(e.ops) == 1:
             op = e.ops[0]
             l, r = e.left, e.comparators[0]
@@ -295,6 +309,31 @@ class Fn:
                 and self.pure_warning_test(st.test):
             self.notes.append(f'{self.name}: warning `{_src(st.test)}` skipped')
             return self.stmts(rest)
+        # ---- `r = set(F); F = set(); for c in r: c |= S; F.add(c)`
+        if len(body) >= 3 and self.is_map_union(body[0], body[1], body[2]):
+            F = body[1].targets[0].id
+            a, _ = self.var(F)
+            S, tS = self.expr(body[2].body[0].value)
+            if not (tS == 'set' or (isinstance(tS, tuple) and tS[0] == 'single')):
+                raise Refuse(f'{self.name}: |= {tS}')
+            nm = self.fresh_name(F)
+            self.env[F] = (nm, 'fam')
+            self.env[body[0].targets[0].id] = (a, 'fam')
+            return (f'let {nm} := map (fun c_ => union c_ {S}) {a} in\n'
+                    + self.stmts(body[3:]))
+        # ---- `e = next(iter(F))`
+        if isinstance(st, ast.Assign) and len(st.targets) == 1 and \
+                isinstance(st.targets[0], ast.Name) and isinstance(st.value, ast.Call) \
+                and _src(st.value.func) == 'next' and len(st.value.args) == 1 and \
+                isinstance(st.value.args[0], ast.Call) and \
+                _src(st.value.args[0].func) == 'iter' and len(st.value.args[0].args) == 1:
+            a, ta = self.expr(st.value.args[0].args[0])
+            if ta != 'fam':
+                raise Refuse(f'{self.name}: next(iter(.)) of {ta}')
+            nm = self.fresh_name(st.targets[0].id)
+            self.env[st.targets[0].id] = (nm, 'set')
+            return (f'match {a} with\n| [] => {self.fail()}\n| {nm} :: _ =>\n'
+                    + self.stmts(rest) + '\nend')
         # ---- assert
         if isinstance(st, ast.Assert):
             key = _src(st.test)
@@ -317,6 +356,64 @@ class Fn:
         if isinstance(st, ast.Assign) and len(st.targets) == 1:
             return self.do_assign(st.targets[0], st.value, rest)
         raise Refuse(f'{self.name}: statement `{src.splitlines()[0]}`')
+
+    def is_map_union(self, s0, s1, s2):
+        if not (isinstance(s0, ast.Assign) and isinstance(s1, ast.Assign)
+                and isinstance(s2, ast.For)):
+            return False
+        if not (len(s0.targets) == 1 and isinstance(s0.targets[0], ast.Name)
+                and len(s1.targets) == 1 and isinstance(s1.targets[0], ast.Name)):
+            return False
+        r, F = s0.targets[0].id, s1.targets[0].id
+        if _src(s0.value) != f'set({F})' or _src(s1.value) != 'set()':
+            return False
+        if not (isinstance(s2.target, ast.Name) and _src(s2.iter) == r
+                and not s2.orelse and len(s2.body) == 2):
+            return False
+        c = s2.target.id
+        a, b = s2.body
+        return (isinstance(a, ast.AugAssign) and isinstance(a.op, ast.BitOr)
+                and _src(a.target) == c
+                and isinstance(b, ast.Expr) and _src(b.value) == f'{F}.add({c})')
+
+    def chain_assign(self, st):
+        """`if c1: v = a  elif c2: v = b ...` (a branch may be followed by
+        `v.update(w)`): (v, term) with the previous value of v as default."""
+        def branch(body):
+            if not body or not (isinstance(body[0], ast.Assign)
+                                and len(body[0].targets) == 1
+                                and isinstance(body[0].targets[0], ast.Name)):
+                return None
+            v = body[0].targets[0].id
+            a, ta = self.expr(body[0].value)
+            if ta != 'fam':
+                return None
+            if len(body) == 1:
+                return v, a
+            if len(body) == 2 and isinstance(body[1], ast.Expr) and \
+                    isinstance(body[1].value, ast.Call) and \
+                    _src(body[1].value.func) == f'{v}.update' and \
+                    len(body[1].value.args) == 1:
+                b, tb = self.expr(body[1].value.args[0])
+                if tb == 'fam':
+                    return v, f'(union_fam {a} {b})'
+            return None
+        got = branch(st.body)
+        if got is None:
+            return None
+        v, a = got
+        cond = self.test(st.test)
+        if not st.orelse:
+            prev, tp = self.var(v)
+            if tp != 'fam':
+                return None
+            return v, f'if {cond} then {a} else {prev}'
+        if len(st.orelse) == 1 and isinstance(st.orelse[0], ast.If):
+            sub = self.chain_assign(st.orelse[0])
+            if sub is None or sub[0] != v:
+                return None
+            return v, f'if {cond} then {a} else {sub[1]}'
+        return None
 
     def only_logging(self, body):
         return all(isinstance(s, ast.Expr) and isinstance(s.value, ast.Call)
@@ -385,6 +482,18 @@ class Fn:
             self.env[v] = (nm, 'set')
             els = self.stmts(rest)
             return (f'match {a} with\n| None =>\n{then}\n| Some {nm} =>\n{els}\nend')
+        if not self.ends_with_return(st.body):
+            snapc = self.snapshot()
+            try:
+                ch = self.chain_assign(st)
+            except Refuse:
+                ch = None
+            self.restore(snapc)
+            if ch is not None:
+                v, term = ch
+                nm = self.fresh_name(v)
+                self.env[v] = (nm, 'fam')
+                return f'let {nm} := {term} in\n' + self.stmts(rest)
         cond = self.test(st.test)
         snap = self.snapshot()
         returns = self.ends_with_return(st.body)
@@ -620,6 +729,68 @@ def translate_cover(path):
     return '\n\n'.join(out), notes
 
 
+def _call_rec_enum(fn, target, args, rest):
+    x, _ = fn.expr(args[0])
+    y, _ = fn.expr(args[1])
+    pc, tpc = fn.expr(args[2])
+    if tpc != 'nat' or _src(args[3]) != 'bab' or _src(args[4]) != 'fol':
+        raise Refuse(f'{fn.name}: call of _cyclic_core_fixpoint_recursive')
+    call = f'rec {x} {y} {pc} {fn.ub}'
+    pat = fn.bind_targets(target, 'fam')
+    ub = fn.fresh_ub()
+    return fn.bind_m(call, f'({pat}, {ub})', fn.stmts(rest))
+
+
+def _call_branch_enum(fn, target, args, rest):
+    x, _ = fn.expr(args[0])
+    y, _ = fn.expr(args[1])
+    pc, tpc = fn.expr(args[2])
+    if tpc != 'nat' or _src(args[3]) != 'bab' or _src(args[4]) != 'fol':
+        raise Refuse(f'{fn.name}: call of _branch_exhaustive')
+    call = f'branch_exh_gen rec {x} {y} {pc} {fn.ub}'
+    pat = fn.bind_targets(target, 'fam')
+    ub = fn.fresh_ub()
+    return fn.bind_m(call, f'({pat}, {ub})', fn.stmts(rest))
+
+
+def translate_enum(path):
+    """Gallina text of branch_exh_gen, traverse_exh_gen (cover_enum.py)."""
+    with open(path) as fh:
+        tree = ast.parse(fh.read())
+    notes = []
+    out = []
+    node = _function(tree, '_branch_exhaustive')
+    if [a.arg for a in node.args.args] != ['x', 'y', 'path_cost', 'bab', 'fol']:
+        raise Refuse('_branch_exhaustive: parameters')
+    fn = Fn('_branch_exhaustive', node, 'res',
+            {'_cyclic_core_fixpoint_recursive': _call_rec_enum})
+    fn.env = {'x': ('x', 'set'), 'y': ('y', 'set'), 'path_cost': ('path_cost', 'nat')}
+    fn.rettype = 'fam'
+    body = fn.stmts(node.body)
+    notes += fn.notes
+    out.append(
+        'Definition branch_exh_gen\n'
+        '  (rec : list box -> list box -> nat -> nat -> res (family * nat))\n'
+        '  (x y : list box) (path_cost ub : nat) : res (family * nat) :=\n'
+        + _indent(body) + '.')
+    node = _function(tree, '_traverse_exhaustive')
+    if [a.arg for a in node.args.args] != ['xcore', 'ycore', 'path_cost', 'bab', 'fol']:
+        raise Refuse('_traverse_exhaustive: parameters')
+    fn = Fn('_traverse_exhaustive', node, 'res',
+            {'_branch_exhaustive': _call_branch_enum})
+    fn.env = {'xcore': ('xcore', 'set'), 'ycore': ('ycore', 'set'),
+              'path_cost': ('path_cost', 'nat')}
+    fn.rettype = 'fam'
+    body = fn.stmts(node.body)
+    notes += fn.notes
+    out.append(
+        'Definition traverse_exh_gen\n'
+        '  (rec : list box -> list box -> nat -> nat -> res (family * nat))\n'
+        '  (xcore ycore : list box) (path_cost ub : nat) : res (family * nat) :=\n'
+        + _indent(body) + '.')
+    return '\n\n'.join(out), notes
+
+
 HEADER = '''(* GENERATED by tools/vlib/cover_bbgen.py from %(src)s in the working tree
    of /repo.  Do not edit; regenerated on every check run. *)
 From Coq Require Import List ZArith Bool Arith.
@@ -649,9 +820,39 @@ def cover_text(repo):
     import os
     path = os.path.join(repo, 'omega/symbolic/cover.py')
     body, notes = translate_cover(path)
-    text = HEADER % dict(src='omega/symbolic/cover.py') + body + FOOTER
-    text += ''.join(f'(* note: {n} *)\n' for n in notes)
+    path2 = os.path.join(repo, 'omega/symbolic/cover_enum.py')
+    body2, notes2 = translate_enum(path2)
+    text = (HEADER % dict(src='omega/symbolic/cover.py and cover_enum.py')
+            + body + '\n\n(* ---- cover_enum.py *)\n' + body2 + FOOTER)
+    text += ''.join(f'(* note: {n} *)\n' for n in notes + notes2)
     return text
+
+
+def ensure(ctx):
+    """Tie T for the branch-and-bound skeleton (used by the C09 and C10
+    plug-ins): translate the five functions from the working tree
+    (fail-closed) and re-prove that the translation equals the hand model."""
+    from vlib.core import Broken, REPO
+    try:
+        text = cover_text(REPO)
+    except Refuse as e:
+        raise Broken('translator', f'omega/symbolic/cover.py, cover_enum.py: {e}')
+    except SyntaxError as e:
+        raise Broken('translator', f'omega/symbolic/cover.py, cover_enum.py: {e}')
+    ctx.write_gen('gen/CoverBBGen.v', text)
+    ctx.prove('GenProofs/CoverBBBridge.v', timeout=600)
+
+
+TRUSTED = (
+    'tie T (skeleton): cover._traverse, cover._branch, cover.minimize, '
+    'cover_enum._traverse_exhaustive and cover_enum._branch_exhaustive are '
+    'translated on every run by tools/vlib/cover_bbgen.py into '
+    'gen/CoverBBGen.v over the primitives of the hand model (cyclic_core, '
+    'indep_size, some_cover, unfloors, pick, the recursive '
+    '_cyclic_core_fixpoint_recursive, set operations: fixed table of '
+    'recognised expressions and assertions, anything else refuses) and '
+    'GenProofs/CoverBBBridge.v proves them EQUAL to MinCover.traverse / '
+    'minimize and to the branch-and-bound part of CoverEnum.ccfr')
 
 
 if __name__ == '__main__':
